@@ -270,12 +270,26 @@ def textBlockText (payload : List Nat) : List Nat :=
 
 def strBytes (s : String) : List Nat := s.toList.map Char.toNat
 
+/-- `Number { digits, exp }` → text lexing back to it: `d0.d1…dn e(exp+n)` (no leading-zero error,
+    the fractional digits give the implicit exponent `-n`). -/
 def numberText (p : String) : Option (List Nat) :=
   match p.splitOn "_" with
   | [d, e] => do
     let ds ← hexDecode d
-    pure (if e == "0" then ds else ds ++ 101 :: strBytes e)
+    let ex ← e.toInt?
+    match ds with
+    | [] => none
+    | [d0] => pure (if ex = 0 then [d0] else d0 :: 101 :: strBytes (toString ex))
+    | d0 :: rest =>
+      let ex' : Int := ex + rest.length
+      pure (d0 :: 46 :: (rest ++ (if ex' = 0 then [] else 101 :: strBytes (toString ex'))))
   | _ => none
+
+/-- payloads the one-space-indented `|||` layout represents faithfully -/
+def textBlockOk (payload : List Nat) : Bool :=
+  match payload with
+  | [] => false
+  | b :: _ => b != 32 && b != 9 && b != 10 && !payload.contains 13
 
 def TokKind.text : TokKind → Option (List Nat)
   | .eof => some []
@@ -284,7 +298,9 @@ def TokKind.text : TokKind → Option (List Nat)
   | .ident s => hexDecode s
   | .number s => numberText s
   | .string s => do pure (34 :: (escapeString (← hexDecode s) ++ [34]))
-  | .textBlock s => do pure (textBlockText (← hexDecode s))
+  | .textBlock s => do
+    let p ← hexDecode s
+    if textBlockOk p then pure (textBlockText p) else none
 
 def layoutAux : List TokKind → Nat → List Token → List Nat → Option (List Token × List Nat)
   | [], pos, toks, rtext => some ((⟨.eof, ⟨pos, pos⟩⟩ :: toks).reverse, rtext.reverse)
